@@ -100,14 +100,14 @@ func (l *Lab) NewMultiFixture(o MultiOpts) (*MultiFixture, error) {
 					return
 				}
 				u.Cookie = file.Settings["gatewayaccesstoken"]
-			// the same session asks again from another address (laptop moved): own token for that address
-			b2 := NewBrowser(m.GW, "127.0.0.2")
-			for ck, cv := range u.Browser.Cookies {
-				b2.Cookies[ck] = cv
-			}
-			if f2, _, err := b2.Download(""); err == nil && f2 != nil {
-				u.Cookie2 = f2.Settings["gatewayaccesstoken"]
-			}
+				// the same session asks again from another address (laptop moved): own token for that address
+				b2 := NewBrowser(m.GW, "127.0.0.2")
+				for ck, cv := range u.Browser.Cookies {
+					b2.Cookies[ck] = cv
+				}
+				if f2, _, err := b2.Download(""); err == nil && f2 != nil {
+					u.Cookie2 = f2.Settings["gatewayaccesstoken"]
+				}
 			}(i, u)
 		}
 		wg.Wait()
